@@ -175,7 +175,18 @@ for _n, _ks, _h, _tl in [
         ('hmac-sha256@ssh.com', 16, 'sha256', 32), ('hmac-sha384@ssh.com', 48, 'sha384', 48),
         ('hmac-sha512@ssh.com', 64, 'sha512', 64)]:
     MACS[_n] = (_ks, _h, _tl, False)
+for _n, _tl in [('umac-64', 8), ('umac-128', 16)]:
+    MACS[_n + '@openssh.com'] = (16, 'umac', _tl, False)
+    MACS[_n + '-etm@openssh.com'] = (16, 'umac', _tl, True)
 COMPRESSIONS = ['none', 'zlib@openssh.com', 'zlib']
+
+
+def _tag(key, dig, tl, seq, data):
+    """data starts with the 4-byte sequence number (RFC 4253 6.4); UMAC takes it as its nonce instead"""
+    if dig == 'umac':
+        import refumac
+        return refumac.umac(key, data[4:], u64(seq), tl)
+    return _hmac.new(key, data, dig).digest()[:tl]
 
 
 # --------------------------------------------------------------------- one direction
@@ -256,10 +267,10 @@ class Direction:
             key, dig, tl, etm = self.mac
             if etm:
                 ct = self.ctx.update(body)
-                tag = _hmac.new(key, u32(seq) + length + ct, dig).digest()[:tl]
+                tag = _tag(key, dig, tl, seq, u32(seq) + length + ct)
                 out = length + ct + tag
             else:
-                tag = _hmac.new(key, u32(seq) + length + body, dig).digest()[:tl]
+                tag = _tag(key, dig, tl, seq, u32(seq) + length + body)
                 out = self.ctx.update(length + body) + tag
         self.seq = (seq + 1) & 0xffffffff
         return out
@@ -317,7 +328,7 @@ class Direction:
                 self._check_len(n)
                 if len(buf) < 4 + n + tl:
                     return None
-                tag = _hmac.new(key, u32(seq) + buf[:4 + n], dig).digest()[:tl]
+                tag = _tag(key, dig, tl, seq, u32(seq) + buf[:4 + n])
                 if not _hmac.compare_digest(tag, buf[4 + n:4 + n + tl]):
                     raise RefError('ETM MAC mismatch on packet seq %d' % seq)
                 body = self.ctx.update(buf[4:4 + n])
@@ -336,7 +347,7 @@ class Direction:
                 rest = self.ctx.update(buf[bs:4 + n])
                 self._first = None
                 clear = first + rest
-                tag = _hmac.new(key, u32(seq) + clear, dig).digest()[:tl]
+                tag = _tag(key, dig, tl, seq, u32(seq) + clear)
                 if not _hmac.compare_digest(tag, buf[4 + n:4 + n + tl]):
                     raise RefError('MAC mismatch on packet seq %d' % seq)
                 body = clear[4:]
